@@ -223,7 +223,10 @@ def assemble_text(text: str) -> Tuple[str, Any]:
         return 'error', exc
     except BaseException as exc:  # noqa: B902
         return 'raw', exc
-    reader = Reader(out)
+    try:
+        reader = Reader(out)
+    except flipjump.FlipJumpException as exc:
+        return 'raw', exc   # assembled, but the written image does not load: as bad as a raw exception
     return 'ok', reader.memory
 
 
